@@ -173,14 +173,17 @@ def getCell (ix : Index α) (p : α × α) : Option (α × α) :=
   else if p.2 < ix.ymin ∨ ix.ymax < p.2 then none
   else some ((p.1 - ix.xmin) / ix.dX, (p.2 - ix.ymin) / ix.dY)
 
-/-- `__getCell` as executed: the two range tests, then `idx = (x - xmin) / dX`, `idy = (y - ymin) / dY`, each a
-ZeroDivisionError when the cell side is `0` (which the constructor no longer produces: `mkIndex_builds`) -/
+/-- `__getCell` as executed: the two range tests, then `idx = min((x - xmin) / dX, csize)`,
+`idy = min((y - ymin) / dY, lsize)`: each division is a ZeroDivisionError when the cell side is `0` (which the
+constructor no longer produces: `mkIndex_builds`); the `min` only matters in floating point, where the quotient for
+`x = xmax` can exceed the number of columns by a rounding error (in exact arithmetic it is the identity on every
+built index: `getCellR_of_good`) -/
 def getCellR (ix : Index α) (p : α × α) : Res (Option (α × α)) :=
   if p.1 < ix.xmin ∨ ix.xmax < p.1 then .ok none
   else if p.2 < ix.ymin ∨ ix.ymax < p.2 then .ok none
   else if isZero ix.dX then .error .zerodiv
   else if isZero ix.dY then .error .zerodiv
-  else .ok (some ((p.1 - ix.xmin) / ix.dX, (p.2 - ix.ymin) / ix.dY))
+  else .ok (some (pyMin ((p.1 - ix.xmin) / ix.dX) ((ix.csize : Int) : α), pyMin ((p.2 - ix.ymin) / ix.dY) ((ix.lsize : Int) : α)))
 
 /-- the test made by `__cellsCrossSegment` for cell `(i, j)`: both ends strictly inside, or one of the
 four sides (bottom, left, top, right — in this order) passes the straddle test -/
